@@ -150,8 +150,8 @@ class Task:
 
 
 class Scheduler:
-    """strategy: ("uniform",) | ("sticky", pct_stay) | ("pct", depth, est_steps)
-                 | ("script", [(step, task_idx), ...])"""
+    """strategy: ("uniform",) | ("sticky", per_mille_stay) | ("pct", depth, est_steps)
+                 | ("script", [(from_task, own_step, to_task, forced), ...])"""
 
     def __init__(self, seed, strategy=("uniform",), max_steps=200000, monitor=True,
                  stall_s=20.0):
@@ -173,7 +173,9 @@ class Scheduler:
         self._script = None
         self._script_i = 0
         if strategy[0] == "script":
-            self._script = list(strategy[1])
+            # entries (from_task, from_task_own_step, to_task, forced): positions are relative
+            # to the task's own yield count, so removing one pre-emption does not shift the others
+            self._script = {(a, b, 1 if f else 0): c for (a, b, c, f) in strategy[1]}
         self._pct_points = None
 
     # -- public ---------------------------------------------------------------
@@ -202,7 +204,7 @@ class Scheduler:
                                         name=f"sim-{t.name}")
             t.thread.start()
         first = self._choose(None, forced=True)
-        self.decisions.append((self.step, first.idx, 1))
+        self.decisions.append((-1, 0, first.idx, 1))
         self.cur = first
         first.sem.release()
         last = -1
@@ -294,7 +296,7 @@ class Scheduler:
             raise SimAbort()
         nxt = self._choose(t, forced=False)
         if nxt is not t and nxt is not None:
-            self.decisions.append((self.step, nxt.idx, 0))
+            self.decisions.append((t.idx, t.steps, nxt.idx, 0))
             self._switch(t, nxt, forced=False)
 
     def _switch(self, t, nxt, forced):
@@ -307,7 +309,7 @@ class Scheduler:
 
     def _note_switch(self, t, nxt, forced=False):
         if forced:
-            self.decisions.append((self.step, nxt.idx, 1))
+            self.decisions.append((t.idx, t.steps, nxt.idx, 1))
         self.switches.append((self.step, t.idx, t.loc, nxt.idx))
         self.pairs.add((t.loc, nxt.loc))
         self._sig.update(f"{t.idx}@{t.loc}>{nxt.idx};".encode())
@@ -332,16 +334,12 @@ class Scheduler:
             return None
         kind = self.strategy[0]
         if kind == "script":
-            sc = self._script
-            while self._script_i < len(sc) and sc[self._script_i][0] < self.step:
-                self._script_i += 1
-            if self._script_i < len(sc):
-                st, want, fz = sc[self._script_i]
-                if st == self.step and bool(fz) == bool(forced):
-                    self._script_i += 1
-                    for x in cands:
-                        if x.idx == want:
-                            return x
+            key = ((t.idx, t.steps) if t is not None else (-1, 0)) + (1 if forced else 0,)
+            want = self._script.get(key)
+            if want is not None:
+                for x in cands:
+                    if x.idx == want:
+                        return x
             if forced or t is None or t not in cands:
                 return min(cands, key=lambda x: x.idx)
             return t
